@@ -107,7 +107,7 @@ def make_measure(shape, q=4, pin_pitch=True):
         b = S.Note("F", 3, alt_b, id="b", voice=v_b, staff=st_b, symbolic_duration=dict(sd))
         part.add(b, t0 + on_b, t0 + on_b + d_b)
         notes.append(b)
-        if shape in ("chord", "all"):
+        if shape in ("chord", "all", "divchange_chord"):  # divchange_chord: a chord in the segment before a divisions change
             c = S.Note("E", oct_a, None, id="c", voice=1, staff=1, symbolic_duration=dict(sd))  # chord with a
             part.add(c, t0 + on_a, t0 + on_a + d_a)
             notes.append(c)
@@ -204,7 +204,7 @@ def make_measure(shape, q=4, pin_pitch=True):
 
 
 def _inst(tier):
-    shapes = ["plain", "chord", "chord_uneq", "grace", "rest_tie", "direction", "divchange", "divchange_m2", "divchange_x", "divchange_x_m2", "poly_two", "gap2"] + (["all"] if tier != "quick" else [])
+    shapes = ["plain", "chord", "chord_uneq", "grace", "rest_tie", "direction", "divchange", "divchange_m2", "divchange_x", "divchange_x_m2", "divchange_chord", "poly_two", "gap2"] + (["all"] if tier != "quick" else [])
     out = [{"shape": s} for s in shapes]
     if tier != "quick":
         out += [{"shape": "plain", "pin_pitch": False}, {"shape": "chord", "q": 6}]
